@@ -6,6 +6,7 @@ CONSTANTS
   MaxGets = 2
   InjLen = 0
   Wide = {}
+  ChainSeq <- NoChain
   Emit = FALSE
 INVARIANTS InjectConsistent StackEmptyWhenQuiet Precedence NoRecursion OnceBuilt LazyFactories
 VIEW View
